@@ -12,6 +12,7 @@
  *   stat                   NUM n DEPTH d ROOT id SOON sec nsec
  */
 #include <stdio.h>
+#include <unistd.h>
 #include <stdlib.h>
 #include <string.h>
 #include <setjmp.h>
@@ -197,6 +198,7 @@ int main(void)
 
 	setvbuf(stdout, NULL, _IOFBF, 1 << 16);
 	iv_set_fatal_msg_handler(fatal_handler);
+	alarm(60);	/* watchdog: a library call that does not return ends the run with SIGALRM */
 	iv_init();
 	while (fgets(line, sizeof(line), stdin) != NULL)
 		do_op(line);
